@@ -1,5 +1,6 @@
 import AikenVerif.Lemmas.CekNoPanic
 import AikenVerif.Lemmas.CekTerminates
+import AikenVerif.Lemmas.CostNonneg
 /-!
 # C10 — evaluation never crashes: property theorems (evaluator part)
 
@@ -123,6 +124,15 @@ theorem cek_total (cfg : Config) (hp : PosCosts cfg.costs cfg.sem) (budget : ExB
   | unmodelled => exact Or.inr (Or.inr (Or.inr rfl))
   | panic => exact absurd h hp'
   | outOfFuel => exact absurd h hf
+
+/-- `PosCosts` follows from two DECIDABLE checks on a concrete cost model — every step priced ≥ 1 cpu
+(`stepsPositive`) and no costing function with a negative coefficient or floor (`builtinsNonneg`;
+all size measures are non-negative, `measures_nonneg`).  The driver evaluates both on the cost models
+the real evaluator runs with (`costpos`), so for those the termination theorem holds outright: -/
+theorem cek_terminates_checked (cfg : Config) (h1 : stepsPositive cfg.costs = true)
+    (h2 : builtinsNonneg cfg.costs = true) (budget : ExBudget) (t : NTerm) :
+    ∃ fuel, run cfg fuel budget t ≠ .outOfFuel :=
+  cek_terminates cfg (posCosts_of_checks cfg.costs cfg.sem h1 h2) budget t
 
 /-- the step half of `PosCosts` is decidable on a concrete cost model -/
 theorem posCosts_of_check (cm : CostModel) (sem : Sem) (h : stepsPositive cm = true)
